@@ -9782,20 +9782,32 @@ def aten_tanh(self: TFloat) -> TFloat:
 
 
 @torch_op("aten::tensor.bool", trace_only=True)
-def aten_tensor_bool(self: bool, dtype: int) -> TensorType:
+def aten_tensor_bool(
+    self: bool, dtype: int = -1, device: str = "", requires_grad: bool = False
+) -> TensorType:
     tensor = op.Constant(value_int=self)
+    if dtype == -1 or dtype is None:
+        dtype = BOOL.dtype
     return op.Cast(tensor, to=dtype)
 
 
 @torch_op("aten::tensor.float", trace_only=True)
-def aten_tensor_float(self: float, dtype: int) -> TensorType:
+def aten_tensor_float(
+    self: float, dtype: int = -1, device: str = "", requires_grad: bool = False
+) -> TensorType:
     tensor = op.Constant(value_float=self)
+    if dtype == -1 or dtype is None:
+        dtype = FLOAT.dtype
     return op.Cast(tensor, to=dtype)
 
 
 @torch_op("aten::tensor.int", trace_only=True)
-def aten_tensor_int(self: int, dtype: int) -> TensorType:
+def aten_tensor_int(
+    self: int, dtype: int = -1, device: str = "", requires_grad: bool = False
+) -> TensorType:
     tensor = op.Constant(value_int=self)
+    if dtype == -1 or dtype is None:
+        dtype = INT64.dtype
     return op.Cast(tensor, to=dtype)
 
 
